@@ -305,6 +305,27 @@ def impl_oracle(run):
                     out.append(("impl:append-order:" + be, "tokens of goroutine %d are not in program order" % t,
                                 rep({"expected": "per-goroutine order preserved"})))
                     break
+    elif st == "appendfresh":
+        lost = []
+        for k, f in fin.items():
+            got = bytes.fromhex(f.get("b") or "").decode("latin1")
+            toks = [got[i:i + 8] for i in range(0, len(got), 8)]
+            oks = [dstr(c["op"]["v"]) for c in calls if c["op"]["k"] == k and c["e"] == "ok"]
+            if sorted(toks) != sorted(oks):
+                lost.append((dstr(k), sorted(set(oks) - set(toks)), sorted(set(toks) - set(oks)), len(oks), len(toks)))
+        if lost:
+            k, miss, extra, no, nt_ = lost[0]
+            sub = [c for c in calls if dstr(c["op"]["k"]) == k]
+            out.append(("impl:acked-append-missing:%s:%s" % (run.get("name"), be) if miss else
+                        "impl:unacked-append-present:%s:%s" % (run.get("name"), be),
+                        "AppendBytes of %d goroutines to the absent key %r, released together: %d calls returned nil, the key "
+                        "holds %d tokens (acknowledged but missing %s, present but not acknowledged %s); %d of %d keys of "
+                        "the run are affected" % (run["threads"], k, no, nt_, miss, extra, len(lost), len(fin)),
+                        {"backend": be, "dsn": run.get("name"), "key": k,
+                         "calls_on_this_key": [{"t": c["t"], "inv": c["inv"], "ret": c["ret"], "token": dstr(c["op"]["v"]),
+                                                "e": c["e"]} for c in sub],
+                         "final_value": dstr(fin[[kk for kk in fin if dstr(kk) == k][0]].get("b")),
+                         "expected": "a permutation of exactly the tokens whose call returned nil"}))
     elif st == "ownset":
         f = list(fin.values())[0]
         try:
@@ -392,6 +413,12 @@ def acases(run):
         return ["CAppend 8 %s %s" % (oks, lit(fin[0].get("b") or ""))]
     code = {"ok": 0, "exists": 1, "busy": 2}
     out = []
+    if st == "appendfresh":
+        res_ = []
+        for f in fin:
+            oks = "[" + "; ".join(lit(c["op"]["v"]) for c in calls if c["op"]["k"] == f["k"] and c["e"] == "ok") + "]"
+            res_.append("CAppend 8 %s %s" % (oks, lit(f.get("b") or "")))
+        return res_
     if st == "ownset":
         lasts = []
         for t in range(run["threads"]):
@@ -610,6 +637,7 @@ def run(ck):
              "search; accounting runs with 2..16 goroutines (counters, unique-token appends; add, emplace and "
              "remove races released by a barrier per key, each Emplace followed by a read that must show the final "
              "value); set-valued Mutates through map and struct targets (forced, linset, ownset); "
+             "appends to a fresh absent key per round, default DSN and busy-timeout DSN (appendfresh); "
              "every third run on the key-hashing kind of store; the same under the race detector. A run is non-trivial if some call succeeded and two calls of "
              "different goroutines overlapped in time; distinct = distinct recorded history",
         assumptions=["BUSY / decode / not-found / exists results mean 'not applied'",
